@@ -26,7 +26,8 @@ Quirks kept: `degree` is `len(fun.args)` even when a special case keeps ONE chil
 Python float 0.5 (sympy ≥ 1.13: true for `Float(0.5)` only, false for `Rational(1,2)`); `"sqaure" not in basis` is
 always true for a real basis; the `Abs` branch sits behind `degree == 1` and the `pass` branch compares a
 DecoratedNode with the int 1 (no `__eq__`: always False); `"* inv"` / `"/ inv"` branches return `["Mul"] + one child`.
-Not modelled: Python `eval` of arbitrary text in `is_float` (only numeric literals `[-]d[.d][e±d]` and `[-]d/d`),
+Not modelled: Python `eval` of arbitrary text in `is_float` (only numeric literals `[-]d[.d][e±d]` and `[-]d/d`, with the
+OverflowError of `float(<int>)` beyond the double range),
 non-ASCII `str.lower`, numpy `U100` truncation.
 -/
 import ESRVerif.Generated.ToList
@@ -206,13 +207,31 @@ def pyFloatIsOne (s : String) : Bool :=
     | some (m, e, []) => !neg && isOneVal m e
     | _ => false
 
+/-- Python `float(n)` of an `int` `n` raises OverflowError from `2^1024 − 2^970` on (the first integer that rounds to
+`2^1024`); a `float` literal beyond the range evaluates to `inf` and does not raise. -/
+def floatOverflowBound : Nat :=
+  179769313486231580793728971405303415079934132710037826936173778980444968292764750946649017977587207096330286416692887910946555547851940402630657488671505820681908902000708383676273854845817711531764475730270069855571366959622842914819860834936475292719074168444365510704342711559699508093042880177904174497792
+
+/-- the text is a Python `int` literal: digits only (no `.`, no exponent) -/
+def isIntLit (cs : List Char) : Bool := !cs.isEmpty && cs.all Char.isDigit
+
+/-- `float(eval(text))` raises OverflowError: an `int` literal too large for a double -/
+def intLitOverflows (cs : List Char) : Bool := isIntLit cs && decide (floatOverflowBound ≤ natOfDigits cs)
+
+/-- `int / int` (true division, correctly rounded) raises OverflowError ("integer division result too large for a
+float"); `num` is the text up to the `/`. -/
+def intQuotOverflows (num den : List Char) : Bool :=
+  isIntLit num && isIntLit den && decide (natOfDigits den * floatOverflowBound ≤ natOfDigits num)
+
 /-- `generator.is_float(s)`: `float(eval(s))` does not raise — numeric literals `[-]d[.d][e±d]` and quotients
-`[-]d/d` with a non-zero denominator (what sympy prints for Integer, Float, Rational). -/
+`[-]d/d` with a non-zero denominator (what sympy prints for Integer, Float, Rational), except an integer (or a quotient
+of integers) beyond the range of a double: `float(10**400)` raises OverflowError, so a 400-digit Integer label is NOT
+a float for ESR (whereas the Float `1.0e+400` is: it evaluates to `inf`). -/
 def isFloatChars (cs : List Char) : Bool :=
   match parseUnsigned (stripSign cs).2 with
-  | some (_, _, []) => true
+  | some (_, _, []) => !intLitOverflows (stripSign cs).2
   | some (_, _, '/' :: r) => (match parseUnsigned (stripSign r).2 with
-      | some (m, _, []) => m != 0
+      | some (m, _, []) => m != 0 && !intQuotOverflows ((stripSign cs).2.takeWhile Char.isDigit) (stripSign r).2
       | _ => false)
   | _ => false
 
